@@ -4,11 +4,49 @@ from vmon import real
 
 def plan(tier, seed):
     sizes = (1, 3) if tier == 'quick' else (1, 2, 3, 4)
-    return [{'lane': 'real', 'timeout': 120, 'params': {'nproc': n, 'hold': 1.0, 'T': 2.0}}
-            for n in sizes]
+    specs = [{'lane': 'real', 'timeout': 120, 'params': {'nproc': n, 'hold': 1.0, 'T': 2.0}}
+             for n in sizes]
+    # close() with more blocked producers than slots
+    specs += [{'lane': 'real', 'sc': 'close', 'timeout': 120,
+               'params': {'nproc': n, 'producers': k, 'hold': 1.0, 'T': 2.0}}
+              for (n, k) in (((2, 5),) if tier == 'quick' else ((1, 3), (2, 5), (3, 7), (2, 2)))]
+    return specs
+
+
+def run_close(spec, rec):
+    p = spec['params']
+    r = real.run_scenario('vmon.real_pool', 'sc_putlocks_close', p, timeout=spec['timeout'] - 25)
+    obs = r['obs']
+    if r['status'] == 'scenario_error':
+        raise RuntimeError('scenario error: ' + obs.get('scenario_exception', r['stderr'][-2000:]))
+    rec.case()
+    rec.count('real:putlock_close_scenarios')
+    attrs = {'lane': 'real', 'nproc': p['nproc'], 'scenario': 'close_with_blocked_producers'}
+    if r['status'] != 'ok':
+        rec.violation('host_process_died' if r['status'] == 'died' else 'putlock_pool_hung', attrs,
+                      rc=r['rc'], obs=obs, stderr=r['stderr'][-4000:])
+        return
+    if obs['returned_while_full']:
+        rec.violation('apply_async_did_not_block_with_all_slots_taken', attrs, obs=obs)
+    else:
+        rec.count('real:blocked_submitters', p['producers'])
+    if obs['handles_after_close']:
+        rec.violation('job_accepted_after_close', attrs, obs=obs)
+    if obs['returned_at_quiescence'] != p['producers']:
+        # (whether they come back at close() or only when slots come back is not
+        # C10's business; that they hold no slot at the end is)
+        rec.violation('producer_blocked_for_ever_after_close', attrs, obs=obs)
+    if any(o[0] != 'ok' for o in obs['first']):
+        rec.violation('putlock_job_failed', attrs, obs=obs)
+    if obs['value_at_quiescence'] != obs['bound'] or obs['bound'] != p['nproc']:
+        rec.violation('slots_not_all_free_at_quiescence', attrs, value=obs['value_at_quiescence'],
+                      bound=obs['bound'], obs=obs)
+    rec.sig(['putlocks_close', p['nproc'], p['producers']])
 
 
 def run_spec(spec, rec):
+    if spec.get('sc') == 'close':
+        return run_close(spec, rec)
     p = spec['params']
     r = real.run_scenario('vmon.real_pool', 'sc_putlocks', p, timeout=spec['timeout'] - 25)
     obs, ev = r['obs'], r['events']
